@@ -47,7 +47,12 @@ func init() {
 		"Definition definedContainerKey := Model.SerCodeRef.definedContainerKey.\n"+
 		"Definition GenericRegister := Model.SerCodeRef.GenericRegister.\n"+
 		"Definition resolvePointerNum := Model.SerCodeRef.resolvePointerNum.\n"+
-		"Definition containerType := Model.SerCodeRef.containerType.\n")
+		"Definition containerType := Model.SerCodeRef.containerType.\n"+
+		"Definition internalUnmarshal := Model.SerCodeRef.internalUnmarshal.\n"+
+		"Definition init_serialization := Model.SerCodeRef.init_serialization.\n"+
+		"Definition init_compose := Model.SerCodeRef.init_compose.\n"+
+		"Definition compose_records := Model.SerCodeRef.compose_records.\n"+
+		"Definition dependencyState_underlying := Model.SerCodeRef.dependencyState_underlying.\n")
 }
 
 type c12Sort int
@@ -104,6 +109,8 @@ var c12ErrPrefix = []struct{ prefix, code string }{
 	{"key[%s] already registered", "E_DUP"},
 	{"type[%s] already registered", "E_DUP"},
 	{"type[%s] is %v, cannot hold", "E_FIELD"},
+	{"unmarshal map fail, can not set field", "E_FIELD"},
+	{"unmarshal map fail, cannot find field", "E_FIELD"},
 }
 
 // shape of the function being translated
@@ -120,10 +127,12 @@ type c12Tr struct {
 	wrap func(v string) string
 	// local functions that are translated too (called by name)
 	known map[string]bool
+	// decoder idioms (c12_deccode.go): aliases of cursors, field references, createValueFromType pairs
+	dec *c12Dec
 }
 
 func (t *c12Tr) fork() *c12Tr {
-	n := &c12Tr{fn: t.fn, sorts: map[string]c12Sort{}, order: append([]string{}, t.order...), wrap: t.wrap, known: t.known}
+	n := &c12Tr{fn: t.fn, sorts: map[string]c12Sort{}, order: append([]string{}, t.order...), wrap: t.wrap, known: t.known, dec: t.dec}
 	for k, v := range t.sorts {
 		n.sorts[k] = v
 	}
@@ -152,7 +161,10 @@ func c12Ident(e ast.Expr) (string, bool) {
 // Gallina names must not clash with the vocabulary
 func c12Var(n string) string {
 	switch n {
-	case "kind", "key", "val", "ty", "reg", "env", "self", "fst", "snd", "map", "length", "m", "rm", "t":
+	case "kind", "key", "val", "ty", "reg", "env", "self", "fst", "snd", "map", "length", "m", "rm", "t",
+		// Gallina keywords
+		"at", "as", "in", "end", "then", "else", "with", "fun", "let", "match", "return", "if", "for", "where", "using",
+		"fix", "cofix", "forall", "exists", "Type", "Prop", "Set", "SProp":
 		return n + "_"
 	}
 	return n
@@ -161,6 +173,9 @@ func c12Var(n string) string {
 // ---------------------------------------------------------------------------- expressions
 
 func (t *c12Tr) expr(e ast.Expr) (string, c12Sort, error) {
+	if c, s, ok, err := t.decExpr(e); ok || err != nil {
+		return c, s, err
+	}
 	switch x := e.(type) {
 	case *ast.ParenExpr:
 		return t.expr(x.X)
@@ -554,6 +569,36 @@ func c12TypeParamPtrNil(e ast.Expr) (string, bool) {
 // calls whose result is (value, error): Gallina term of type res _, sort of the value
 func (t *c12Tr) resCall(e ast.Expr) (string, c12Sort, error) {
 	x, ok := e.(*ast.CallExpr)
+	if ok && t.fn.name == "internalUnmarshal" {
+		switch c12Squash(types.ExprString(x.Fun)) {
+		case "internalUnmarshal":
+			if len(x.Args) == 1 {
+				a, as, err := t.expr(x.Args[0])
+				if err != nil {
+					return "", 0, err
+				}
+				if as != c12SOptGis {
+					return "", 0, t.errf("argument of the recursive call is not an element of the record")
+				}
+				return "self " + a, c12SOptVal, nil
+			}
+		case "containerType":
+			if len(x.Args) == 2 && t.known["containerType"] {
+				a, as, err := t.expr(x.Args[0])
+				if err != nil {
+					return "", 0, err
+				}
+				b, bs, err := t.expr(x.Args[1])
+				if err != nil {
+					return "", 0, err
+				}
+				if as != c12SGis || bs != c12STy {
+					return "", 0, t.errf("arguments of containerType")
+				}
+				return "containerType J JK reg " + a + " " + b, c12STy, nil
+			}
+		}
+	}
 	if !ok || len(x.Args) != 1 {
 		return "", 0, t.errf("%s is not a recognised call with an error result", types.ExprString(e))
 	}
@@ -651,6 +696,27 @@ func (t *c12Tr) retValue(r *ast.ReturnStmt, bound string) (string, error) {
 			return "", t.errf("return value %s is not a string", types.ExprString(r.Results[0]))
 		}
 		return c, nil
+	case "val_err":
+		if len(r.Results) != 2 {
+			return "", t.errf("return with %d results", len(r.Results))
+		}
+		if c12IsNil(r.Results[1]) {
+			if c12IsNil(r.Results[0]) {
+				return "Ok None", nil
+			}
+			c, ok, err := t.decRet(r.Results[0])
+			if err != nil {
+				return "", err
+			}
+			if !ok {
+				return "", t.errf("returned value %s not recognised", types.ExprString(r.Results[0]))
+			}
+			return c, nil
+		}
+		if !c12IsNil(r.Results[0]) {
+			return "", t.errf("return of a value together with an error")
+		}
+		return t.errClass(r.Results[1], bound)
 	case "ty":
 		if len(r.Results) != 1 {
 			return "", t.errf("return with %d results", len(r.Results))
@@ -842,6 +908,9 @@ func c12Mentions(n ast.Node, names map[string]bool) bool {
 func (t *c12Tr) stmts(l []ast.Stmt, fall func(*c12Tr) (string, error), ind string) (string, error) {
 	if len(l) == 0 {
 		return fall(t)
+	}
+	if code, ok, err := t.decStmt(l, fall, ind); ok || err != nil {
+		return code, err
 	}
 	rest := func(z *c12Tr) (string, error) { return z.stmts(l[1:], fall, ind) }
 	switch x := l[0].(type) {
@@ -1380,7 +1449,7 @@ func c12ExtractSerCode(repo string) (string, string, error) {
 	}
 	var b strings.Builder
 	b.WriteString("(* Gen/SerCode.v — GENERATED by tools/go2v (extractor \"sercode\") from internal/serialization/serialization.go\n")
-	b.WriteString("   (functions definedContainerKey, internalMarshal, GenericRegister, resolvePointerNum, containerType,\n   translated statement by statement). Do not edit. *)\n")
+	b.WriteString("   (functions definedContainerKey, internalMarshal, GenericRegister, resolvePointerNum, containerType,\n   internalUnmarshal, translated statement by statement). Do not edit. *)\n")
 	b.WriteString("From Eino Require Import Base.Util Base.Universe Model.Ser Model.SerGenLib.\n")
 	b.WriteString("Import ListNotations.\nLocal Open Scope bool_scope.\n\n")
 	b.WriteString("Definition tie_available : bool := true.\n\n")
@@ -1442,10 +1511,160 @@ func c12ExtractSerCode(repo string) (string, string, error) {
 	if err := one("resolvePointerNum", "ty", "", nil); err != nil {
 		return "", "", err
 	}
-	if err := one("containerType", "ty_err", c12Common, nil); err != nil {
+	if err := one("containerType", "ty_err", "(J JK : Type) (reg : registry) ", nil); err != nil {
 		return "", "", err
 	}
+	dcode, err := c12DecFunc(f, known)
+	if err != nil {
+		return "", "", err
+	}
+	b.WriteString(dcode)
+	tables, err := c12Tables(fset, repo, f)
+	if err != nil {
+		return "", "", err
+	}
+	b.WriteString(tables)
 	return "SerCode.v", b.String(), nil
+}
+
+// ---------------------------------------------------------------------------- tables: the registrations made
+// by the init functions of internal/serialization and compose (key, Go type as written), and the
+// declarations of the record types compose registers for checkpoints (exported fields: name, Go type
+// as written; defined basic types: the underlying type)
+
+func c12RegCalls(fn *ast.FuncDecl, qualified bool) ([][2]string, error) {
+	var out [][2]string
+	for _, st := range fn.Body.List {
+		var e ast.Expr
+		switch x := st.(type) {
+		case *ast.AssignStmt:
+			if len(x.Lhs) != 1 || len(x.Rhs) != 1 || c12Squash(types.ExprString(x.Lhs[0])) != "_" {
+				return nil, fmt.Errorf("init: statement %s not recognised", types.ExprString(x.Rhs[0]))
+			}
+			e = x.Rhs[0]
+		case *ast.ExprStmt:
+			e = x.X
+		default:
+			return nil, fmt.Errorf("init: a statement that is not a registration")
+		}
+		call, ok := e.(*ast.CallExpr)
+		if !ok || len(call.Args) != 1 {
+			return nil, fmt.Errorf("init: %s is not a registration", types.ExprString(e))
+		}
+		ix, ok := call.Fun.(*ast.IndexExpr)
+		if !ok {
+			return nil, fmt.Errorf("init: %s is not a generic call", types.ExprString(call.Fun))
+		}
+		want := "GenericRegister"
+		if qualified {
+			want = "serialization.GenericRegister"
+		}
+		if c12Squash(types.ExprString(ix.X)) != want {
+			return nil, fmt.Errorf("init: call of %s", types.ExprString(ix.X))
+		}
+		bl, ok := call.Args[0].(*ast.BasicLit)
+		if !ok || bl.Kind != token.STRING {
+			return nil, fmt.Errorf("init: registration key is not a string literal")
+		}
+		key, _ := strconv.Unquote(bl.Value)
+		out = append(out, [2]string{key, c12Squash(types.ExprString(ix.Index))})
+	}
+	return out, nil
+}
+
+func c12PairList(l [][2]string) string {
+	var items []string
+	for _, e := range l {
+		items = append(items, "("+c12CoqStr(e[0])+", "+c12CoqStr(e[1])+")")
+	}
+	return "[" + strings.Join(items, "; ") + "]"
+}
+
+func c12TypeDecl(f *ast.File, name string) ast.Expr {
+	for _, d := range f.Decls {
+		gd, ok := d.(*ast.GenDecl)
+		if !ok || gd.Tok != token.TYPE {
+			continue
+		}
+		for _, sp := range gd.Specs {
+			if ts := sp.(*ast.TypeSpec); ts.Name.Name == name && ts.TypeParams == nil {
+				return ts.Type
+			}
+		}
+	}
+	return nil
+}
+
+func c12Tables(fset *token.FileSet, repo string, ser *ast.File) (string, error) {
+	var b strings.Builder
+	in := c12TopFunc(ser, "init")
+	if in == nil {
+		return "", fmt.Errorf("serialization.go: func init not found")
+	}
+	regs, err := c12RegCalls(in, false)
+	if err != nil {
+		return "", err
+	}
+	b.WriteString("(* init() of internal/serialization/serialization.go: key, Go type *)\n")
+	b.WriteString("Definition init_serialization : list (string * string) :=\n  " + c12PairList(regs) + ".\n\n")
+	// compose: the init functions in file-name order (the order the Go toolchain runs them in)
+	files := []string{"checkpoint.go", "dag.go"}
+	parsed := map[string]*ast.File{}
+	var cregs [][2]string
+	for _, fn := range append(files, "pregel.go") {
+		pf, err := c12ParseGo(fset, repo, "compose", fn)
+		if err != nil {
+			return "", err
+		}
+		parsed[fn] = pf
+	}
+	for _, fn := range files {
+		cin := c12TopFunc(parsed[fn], "init")
+		if cin == nil {
+			return "", fmt.Errorf("compose/%s: func init not found", fn)
+		}
+		r, err := c12RegCalls(cin, true)
+		if err != nil {
+			return "", fmt.Errorf("compose/%s: %v", fn, err)
+		}
+		cregs = append(cregs, r...)
+	}
+	if c12TopFunc(parsed["pregel.go"], "init") != nil {
+		return "", fmt.Errorf("compose/pregel.go has an init function the extractor does not read")
+	}
+	b.WriteString("(* init() of compose/checkpoint.go, compose/dag.go: key, Go type *)\n")
+	b.WriteString("Definition init_compose : list (string * string) :=\n  " + c12PairList(cregs) + ".\n\n")
+	// the record types
+	recs := []struct{ file, name string }{{"checkpoint.go", "checkpoint"}, {"dag.go", "dagChannel"}, {"pregel.go", "pregelChannel"}, {"checkpoint.go", "nilChunk"}}
+	var decls []string
+	for _, r := range recs {
+		te := c12TypeDecl(parsed[r.file], r.name)
+		st, ok := te.(*ast.StructType)
+		if !ok {
+			return "", fmt.Errorf("compose/%s: type %s is not a struct type", r.file, r.name)
+		}
+		var fields [][2]string
+		for _, fl := range st.Fields.List {
+			if len(fl.Names) == 0 {
+				return "", fmt.Errorf("type %s has an embedded field", r.name)
+			}
+			for _, n := range fl.Names {
+				if !ast.IsExported(n.Name) {
+					continue // skipped by the encoder
+				}
+				fields = append(fields, [2]string{n.Name, c12Squash(types.ExprString(fl.Type))})
+			}
+		}
+		decls = append(decls, "("+c12CoqStr(r.name)+", "+c12PairList(fields)+")")
+	}
+	b.WriteString("(* the record types compose registers: exported fields in declaration order (name, Go type) *)\n")
+	b.WriteString("Definition compose_records : list (string * list (string * string)) :=\n  [" + strings.Join(decls, ";\n   ") + "].\n\n")
+	ds := c12TypeDecl(parsed["dag.go"], "dependencyState")
+	if ds == nil {
+		return "", fmt.Errorf("compose/dag.go: type dependencyState not found")
+	}
+	b.WriteString("Definition dependencyState_underlying : string := " + c12CoqStr(c12Squash(types.ExprString(ds))) + ".\n")
+	return b.String(), nil
 }
 
 // type internalStruct struct { … }: field names and Go types against the vocabulary's record
